@@ -271,6 +271,9 @@ func cmdCheck(args []string) int {
 			fmt.Println(fr.Err)
 		}
 	}
+	for _, n := range ck.notes {
+		fmt.Println(n)
+	}
 	code := rep.finish(ck, verif, *only == "", engineErr)
 	return code
 }
